@@ -226,8 +226,8 @@ func ruleCreateThenCache(c *Ctx, rule string) {
 		if fn.Pkg.Pkg.Path() != modPath+fipPkg || fn.Parent() != nil {
 			continue
 		}
-		cr := calls(fn, "(*crdIpam).createFloatingIP")
-		sy := calls(fn, "(*crdIpam).syncCacheAfterCreate")
+		cr := callsLocal(fn, "(*crdIpam).createFloatingIP")
+		sy := callsLocal(fn, "(*crdIpam).syncCacheAfterCreate")
 		if len(cr) == 0 {
 			continue
 		}
@@ -284,9 +284,31 @@ func ruleProviderSuccessOnlyOnReply(c *Ctx, rule string) {
 		if fn == nil {
 			continue
 		}
-		okEdges := guardEdges(fn, func(v ssa.Value) (bool, int) {
+		var isSuccess func(v ssa.Value, d int) bool
+		isSuccess = func(v ssa.Value, d int) bool {
+			if ld, ok := v.(*ssa.UnOp); ok && ld.Op == token.MUL && pathEndsWith(ld, "Success") {
+				return true
+			}
+			if call, ok := v.(*ssa.Call); ok && strings.HasSuffix(calleeName(call), ").GetSuccess") {
+				return true
+			}
+			if q, ok := unspill(v).(*ssa.Parameter); ok && d < 2 {
+				acts := actualsOf(q)
+				if len(acts) == 0 {
+					return false
+				}
+				for _, a := range acts {
+					if !isSuccess(a, d+1) {
+						return false
+					}
+				}
+				return true
+			}
+			return false
+		}
+		okEdges := guardEdgesX(fn, func(v ssa.Value) (bool, int) {
 			// reply.Success (true edge)  /  p.cloudProvider == nil (true edge)
-			if ld, ok := v.(*ssa.UnOp); ok && pathEndsWith(ld, "Success") {
+			if isSuccess(v, 0) {
 				return true, 0
 			}
 			if bo, ok := v.(*ssa.BinOp); ok && bo.Op == token.EQL && pathEndsWith(bo.X, "cloudProvider") && isNilConst(bo.Y) {
@@ -295,11 +317,9 @@ func ruleProviderSuccessOnlyOnReply(c *Ctx, rule string) {
 			return false, 0
 		})
 		// `!reply.Success` is an UnOp NOT in SSA: the false edge of NOT(success) is the success edge
-		neg := guardEdges(fn, func(v ssa.Value) (bool, int) {
-			if un, ok := v.(*ssa.UnOp); ok && un.Op == token.NOT {
-				if ld, ok := un.X.(*ssa.UnOp); ok && pathEndsWith(ld, "Success") {
-					return true, 1
-				}
+		neg := guardEdgesX(fn, func(v ssa.Value) (bool, int) {
+			if un, ok := v.(*ssa.UnOp); ok && un.Op == token.NOT && isSuccess(un.X, 0) {
+				return true, 1
 			}
 			return false, 0
 		})
@@ -419,5 +439,191 @@ func ruleUsedCountWholeListing(c *Ctx, rule string) {
 			walk(retVal(ret, 0), 0)
 		}
 		c.ob(rule, fn, "the replica count of a deployment is the desired one", nil, bad == "", "the returned count depends on no field of the Deployment other than Spec.Replicas (status counts include surge pods of a rolling update) "+bad)
+	}
+}
+
+// C04.R13 — the handler of delete/finish events acts only for the incarnation that holds the ip: unbind compares the stored
+// PodUid with the event pod's UID before it unassigns, releases or reserves anything; on a mismatch (a late event of an earlier
+// same-named pod, after the ip was freed and taken by the new pod) nothing is done
+func ruleUnbindUIDGuard(c *Ctx, rule string) {
+	fn := c.MustFn(rule, spPkg, "(*FloatingIPPlugin).unbind")
+	if fn == nil {
+		return
+	}
+	isUID := func(v ssa.Value) bool {
+		return dependsOn(v, func(x ssa.Value) bool {
+			if isFieldLoadNamed(x, "UID") {
+				return true
+			}
+			if call, ok := x.(*ssa.Call); ok {
+				return strings.HasSuffix(calleeName(call), ".GetUID")
+			}
+			return false
+		})
+	}
+	mism := guardEdges(fn, predNeq(func(v ssa.Value) bool { return pathEndsWith(v, "PodUid") }, isUID))
+	effects := callsAllX(fn, "(*FloatingIPPlugin).cloudProviderUnAssignIP")
+	effects = append(effects, callsLocal(fn, "(*FloatingIPPlugin).unbindDpPod", "(*FloatingIPPlugin).unbindNoneDpPod", "(*FloatingIPPlugin).releaseIP", "(*FloatingIPPlugin).reserveIP")...)
+	if len(effects) < 3 {
+		c.undecided(rule, fn, "effects of unbind", nil, fmt.Sprintf("expected the unassign call and the two policy branches, found %d calls", len(effects)))
+		return
+	}
+	if len(mism) == 0 {
+		c.ob(rule, fn, "unbind compares the stored PodUid with the event pod's UID", nil, false, "no comparison <ipInfo>.PodUid != <pod UID> in unbind: a late delete/finish event of an earlier same-named pod frees the ip the new pod was bound with")
+		return
+	}
+	for _, e := range mism {
+		iff := e.from.Instrs[len(e.from.Instrs)-1]
+		r := reachFromEdge(e, nil)
+		m := r.anyCall(effects)
+		c.ob(rule, fn, "on a UID mismatch unbind does nothing", iff, m == nil && !r.has(iff), "from the mismatch edge no unassign / release / reserve is reachable and the loop does not go on")
+	}
+	hdr := loopHeaderOf(mism[0].from.Instrs[len(mism[0].from.Instrs)-1])
+	for _, m := range effects {
+		ok := false
+		if hdr != nil {
+			ok = precedes(fn, []ssa.Instruction{hdr.Instrs[0]}, m)
+		} else {
+			ok = precedes(fn, []ssa.Instruction{mism[0].from.Instrs[len(mism[0].from.Instrs)-1]}, m)
+		}
+		c.ob(rule, fn, "the UID guard precedes "+shortCallee(m), m, ok, "every path from entry to the call passes the loop that compares the stored UIDs with the event pod's")
+	}
+}
+
+// C05.R14 — what the store wrappers write is what assign() filled: every object handed to Create/Update was passed to
+// assign(obj, ..) first (an object re-fetched for a retry and written without re-applying the change would make the store call
+// succeed without storing the change)
+func ruleStoreWritesAssigned(c *Ctx, rule string) {
+	n := 0
+	for _, name := range []string{"(*crdIpam).createFloatingIP", "(*crdIpam).updateFloatingIP"} {
+		fn := c.MustFn(rule, fipPkg, name)
+		if fn == nil {
+			continue
+		}
+		// objects that went through assign (in fn or its closures)
+		var assigned []ssa.Value
+		for _, f := range withAnon(fn) {
+			for _, a := range callsLocal(f, fipPkg+".assign") {
+				assigned = append(assigned, a.Common().Args[0])
+			}
+		}
+		isAssigned := func(v ssa.Value) bool {
+			for _, a := range assigned {
+				if a == v || sameAccess(a, v) {
+					return true
+				}
+			}
+			return false
+		}
+		// sources of a value: through local cells (also captured ones) and phis
+		var sources func(v ssa.Value, seen map[ssa.Value]bool) []ssa.Value
+		sources = func(v ssa.Value, seen map[ssa.Value]bool) []ssa.Value {
+			if seen[v] {
+				return nil
+			}
+			seen[v] = true
+			switch x := v.(type) {
+			case *ssa.Phi:
+				var out []ssa.Value
+				for _, e := range x.Edges {
+					out = append(out, sources(e, seen)...)
+				}
+				return out
+			case *ssa.UnOp:
+				if x.Op == token.MUL {
+					var cell ssa.Value
+					switch y := x.X.(type) {
+					case *ssa.Alloc:
+						cell = y
+					case *ssa.FreeVar:
+						// the captured cell: find the binding in the parent
+						if par := x.Parent().Parent(); par != nil {
+							for _, f := range withAnon(par) {
+								allInstrs(f, func(in ssa.Instruction) {
+									if mc, ok := in.(*ssa.MakeClosure); ok && mc.Fn == ssa.Value(x.Parent()) {
+										for i, fv := range x.Parent().FreeVars {
+											if fv == y && i < len(mc.Bindings) {
+												cell = mc.Bindings[i]
+											}
+										}
+									}
+								})
+							}
+						}
+					}
+					if cell != nil {
+						var out []ssa.Value
+						// stores into the cell anywhere in the function family
+						root := x.Parent()
+						for root.Parent() != nil {
+							root = root.Parent()
+						}
+						for _, f := range withAnon(root) {
+							allInstrs(f, func(in ssa.Instruction) {
+								if st, ok := in.(*ssa.Store); ok {
+									addr := st.Addr
+									if fvA, ok := addr.(*ssa.FreeVar); ok {
+										// store through a captured cell in a closure
+										for _, f2 := range withAnon(root) {
+											allInstrs(f2, func(in2 ssa.Instruction) {
+												if mc, ok := in2.(*ssa.MakeClosure); ok && mc.Fn == ssa.Value(f) {
+													for i, fv := range f.FreeVars {
+														if fv == fvA && i < len(mc.Bindings) && mc.Bindings[i] == cell {
+															out = append(out, sources(st.Val, seen)...)
+														}
+													}
+												}
+											})
+										}
+									} else if addr == cell {
+										out = append(out, sources(st.Val, seen)...)
+									}
+								}
+							})
+						}
+						if len(out) > 0 {
+							return out
+						}
+					}
+				}
+			}
+			return []ssa.Value{v}
+		}
+		for _, f := range withAnon(fn) {
+			for _, w := range callsLocal(f, "FloatingIPInterface).Create", "FloatingIPInterface).Update") {
+				n++
+				obj := w.Common().Args[1]
+				ok := true
+				bad := ""
+				for _, s := range sources(obj, map[ssa.Value]bool{}) {
+					// a source is fine if it (or a load of the same cell) was given to assign
+					if !isAssigned(s) && !isAssigned(obj) {
+						ok = false
+						bad = s.String()
+					}
+					if !isAssigned(s) {
+						// the object variable itself was assigned, but this particular source replaced it afterwards
+						if _, isCall := s.(*ssa.Extract); isCall {
+							okSrc := false
+							for _, a := range assigned {
+								for _, s2 := range sources(a, map[ssa.Value]bool{}) {
+									if s2 == s {
+										okSrc = true
+									}
+								}
+							}
+							if !okSrc {
+								ok = false
+								bad = s.String()
+							}
+						}
+					}
+				}
+				c.ob(rule, f, "the object written to the store went through assign()", w, ok, "every value that can reach the object argument of "+shortCallee(w)+" was passed to assign(obj, ..): a re-fetched object is not written without the change "+bad)
+			}
+		}
+	}
+	if n < 2 {
+		c.undecided(rule, nil, "store writes in the wrappers", nil, fmt.Sprintf("expected the Create and the Update call, found %d", n))
 	}
 }
